@@ -12,7 +12,20 @@ EXPL = ("C11: (B) the real calculate_delta_e_2000 (with calculate_hue_angle inli
         "cos/abs even); the identical-colour shortcut agrees with the formula (spec(x,x) normalises to 0); the result is a square root (>= 0). rgb_to_xyz / xyz_to_lab are compared with the CIE "
         "definition with the library's 4-digit epsilon/kappa declared as the spec's tolerance class. (D) Lab of all 2^24 colours vs the CIE-exact definition (longdouble) within the statement's 0.05 "
         "(thorough: complete). (E, bounded) the 34 published Sharma pairs through the real routine (Lab fed by attribute replacement), unit-step neighbours, random / near-neutral / hue-wrap pairs vs an "
-        "independent implementation within 0.05, symmetry bit-for-bit, finiteness, > 0 for distinct colours. 'Never raises' (radicand >= 0, denominators >= 1) is NOT proved deductively here - bounded by E.")
+        "independent implementation within 0.05, symmetry bit-for-bit, finiteness, > 0 for distinct colours. (R, range contracts - vf/ranges.py) 'never raises, finite, non-negative': srgb_to_linear, "
+        "rgb_to_xyz, xyz_to_lab, rgb_to_lab, calculate_hue_angle and calculate_delta_e_2000 are executed over intervals from the 8-bit cube, callee by contract; every division gets `0 not in the "
+        "denominator's range`, every sqrt / fractional power `argument >= 0`, every exp `no overflow`; where intervals lose a correlation the obligation goes to z3 (nlsat) on the polynomial abstraction "
+        "of the expression (the final radicand: x^2 + y^2 + z^2 + RT*y*z >= 0 from |RT| <= 2) or to the rule X/(X+K) in [0,1).")
+
+
+R_CANARIES = [
+    ('chroma weight without the 1 +', CM, 'calculate_delta_e_2000', '    SC = 1 + 0.045 * C_mean_prime', '    SC = 0.045 * C_mean_prime'),
+    ('rotation factor 3 instead of 2 (radicand can go negative)', CM, 'calculate_delta_e_2000', '    RC = 2 * math.sqrt(', '    RC = 3 * math.sqrt('),
+    ('sign of the 25^7 term', CM, 'calculate_delta_e_2000', '    G = 0.5 * (1 - math.sqrt(pow(C_mean, 7) / (pow(C_mean, 7) + pow(25, 7))))', '    G = 0.5 * (1 - math.sqrt(pow(C_mean, 7) / (pow(C_mean, 7) - pow(25, 7))))'),
+    ('exp of a positive square (overflow)', CM, 'calculate_delta_e_2000', '    delta_theta = 30 * math.exp(-pow((H_mean_prime - 275) / 25, 2))', '    delta_theta = 30 * math.exp(pow((H_mean_prime - 275) / 25, 2))'),
+    ('cube root of a shifted argument', CV, 'xyz_to_lab', '            return pow(t, 1 / 3)', '            return pow(t - 0.01, 1 / 3)'),
+    ('mean lightness operands swapped (harmless)', CM, 'calculate_delta_e_2000', '    L_mean = (L1 + L2) / 2', '    L_mean = (L2 + L1) / 2'),
+]
 
 
 def de_paths(prog, X, Y, z):
@@ -116,6 +129,8 @@ def run(args):
     for (cname, _, target), r2 in zip(todo, outs):
         killed = [n for n, ok in r2 if ok is False]
         ck.self_test(f'canary {cname}', bool(killed), f'killed by {killed[0]}' if killed else 'mutant still conforms')
+    # ---- R: range contracts - finite, non-negative, never raises (every radicand >= 0, every denominator excludes 0, exp cannot overflow)
+    run_ranges(ck, prog, [f'{CV}:srgb_to_linear', f'{CV}:rgb_to_xyz', f'{CV}:xyz_to_lab', f'{CV}:rgb_to_lab', f'{CV}:calculate_hue_angle', f'{CM}:calculate_delta_e_2000'], R_CANARIES)
     # ---- D: Lab on the cube
     n, fails, stats, exhaustive, wall = fdx.sweep('checks.d_workers', 'lab_sweep', args.tier)
     ck.exhaustive.append({'engine': 'D', 'what': 'rgb_to_lab vs CIE L*a*b* (D65, exact epsilon=216/24389, kappa=24389/27) in longdouble, tolerance 0.05 per coordinate', 'domain': 'all 16,777,216 colours' if exhaustive else 'quick domain',
@@ -162,7 +177,8 @@ def run(args):
     if pbad: ck.violation('calculate_delta_e_2000/pairs', 'E', {'detail': pbad[0][1]}, {'call': 'calculate_delta_e_2000(a, b)', 'a': pbad[0][0][0], 'b': pbad[0][0][1], 'observed': pbad[0][1]})
     ck.evaluations += len(jobs) * 2
     ck.assume('engine B is over the reals; sin/cos/exp/sqrt/atan2/pow are uninterpreted atoms with only the identities listed in vf/ring.py',
-              "'never raises' / finiteness: radicand >= 0 and denominators >= 1 are NOT discharged deductively; exercised by engine E only (bounded)",
+              "range contracts (engine R) are over the REALS: a float rounding that turns a radicand of exactly 0 into a tiny negative is outside this proof (margin: |RT| <= 2(1 - 4e-7) on the cube by the exhaustive Lab ranges; exercised by E)",
+              'range contracts: path-insensitive joins; pre-condition = the 8-bit colour cube (integers 0..255 per channel)',
               'numeric agreement of the difference on the 2^48 pairs is sampled (bounded); the formula itself is proved',
               'the library\'s epsilon=0.008856 / 7.787 vs CIE 216/24389 / 841/108: declared tolerance class; effect measured by engine D (max error reported)')
     ck.trust('mpmath / numpy longdouble reference arithmetic', 'the 34 published pairs as transcribed in oracles/colour.py (validated by the harness implementation at every run)')
